@@ -246,6 +246,18 @@ func vC01EndToEnd(sizes []int, resumeMode int) {
 	f := manifest.FileItem{RelPath: "f", Size: int64(size), ID: "idf"}
 	e := manifest.FileItem{RelPath: "e", Size: 0, ID: "ide"}
 	m := manifest.Manifest{Root: "src", Items: []manifest.FileItem{e, f}, TotalBytes: int64(size), FileCount: 2}
+	if resumeMode == 2 {
+		// the output directory may already hold an older copy of the file: longer, or shorter (no resume
+		// metadata belongs to it)
+		switch vChoice("previousCopy", 3) {
+		case 1:
+			vTempFile("out/f", vBytes("older", size+3))
+			vTag("older-copy-longer")
+		case 2:
+			vTempFile("out/f", vBytes("older", size-1))
+			vTag("older-copy-shorter")
+		}
+	}
 	a, b := vNewPipeConns()
 	var sendErr error
 	done := make(chan struct{})
